@@ -14,3 +14,6 @@ package fileutil
 
 //@ func SyncDir [C16 C10]
 //@ trusted opens the directory and fsyncs it (file-system effect only)
+
+//@ func MkdirAll [C04 C16]
+//@ trusted file-system effects only (creates the directory and its parents, syncing each)
